@@ -91,7 +91,8 @@ impl Syllable {
         }
 
         if let Some(m) = mods {
-            lc += self.apply_seg_mods(alphas, m, pos, err_pos)?;
+            // one copy has been inserted: an identical neighbour is another segment and keeps its features and its length
+            lc += self.apply_seg_mods_to(alphas, m, pos, 1, err_pos)?;
         }
 
         Ok(lc)
